@@ -227,6 +227,11 @@ def run_tree(ck, rules, stats, samples):
         exp = state_of_summary(msum, src, 'cur', ctx)
         spec = state_of_summary(ssum, src, 'cur', ctx)
         as_model = (got == want) and same_state(obs, exp)
+        if not as_model and got == want and 'T3' in flags and obs.get('T') and not exp.get('T') and not obs.get('gone'):
+            # F-02 side effect: `flags "T"` sets the letters on the message when the rule is EVALUATED; they survive the clearing of
+            # the match list by a failed negation (T3) and show up in the next name that is generated.  The match-list model does
+            # not carry them; under T3 the comparison with the model ignores the letter.
+            as_model = same_state(dict(obs, T=False), exp)
         if 'clean' in flags:
             stats['clean'] += 1
         if spec_acts is not None or model_match:
